@@ -24,7 +24,7 @@ from .. import core, sched, tplgen
 from .. import render_common as rc
 
 PROP = "C07"
-THEOREMS = ["step_agree_own", "step_agree_other", "isolated_of_disjoint_keys", "error_path_race"]
+THEOREMS = ["step_agree_own", "step_agree_other", "isolated_of_disjoint_keys", "error_path_race", "registry_sets_commute", "registry_delete_is_private"]
 
 GATED = ("perfutil/provide.py", "perfutil/component.py", "util/cache.py", "django_components/cache.py",
          "django_components/template.py", "component_media.py")
